@@ -188,8 +188,8 @@ def wtcLoop : Nat → Nat → List WExt → Bytes → List WExt × Bytes
 
 def isTicket (w : WExt) : Bool := match w.e with | .ticket _ => true | _ => false
 
-/-- `tls/common.go: supportedVersions` -/
-def supportedVersionsTable : List UInt16 := [0x0304, 0x0303, 0x0302, 0x0301]
+/-- `tls/common.go: supportedVersions` (T1: `Gen.supportedVersions`, extracted by go/ast on every run) -/
+def supportedVersionsTable : List UInt16 := Gen.supportedVersions.map UInt16.ofNat
 
 /-- `config.minSupportedVersion()` with `MinVersion = 0` and `MaxVersion = HandshakeVersion`
     (`WriteToConfig` sets it): the last entry of the table that is not above the handshake version, else 0 -/
@@ -281,5 +281,114 @@ def wireHelloWith (guard : Bool) (cfg : Cfg) (wexts : List WExt) (serverName : B
 def wireHello (cfg : Cfg) (wexts : List WExt) (serverName : Bytes) (cache : FpCache) (rsid : Nat)
     (configCache : Bool) (force : Bool) (rand : Bytes) (time : Nat) : WireRes :=
   wireHelloWith true cfg wexts serverName cache rsid configCache force rand time
+
+/-! ## Accounting of the built-in extension types (T1, go/ast)
+
+  `goType e` = the Go type (`file:Type`) a constructor of `Ext` models, with the struct fields the model
+  represents (`Autopopulate` is the `auto` flag of `WExt`). `builtinTypes` lists one entry per constructor, in
+  source order; `extension_types_accounted` (Props) states that this is exactly the go/ast-extracted list of the
+  types of package tls implementing `ClientExtension`. -/
+def goType : Ext → String × List String
+  | .null => ("handshake_extensions.go:NullExtension", [])
+  | .sni _ => ("handshake_extensions.go:SNIExtension", ["Domains []string", "Autopopulate bool"])
+  | .alpn _ => ("handshake_extensions.go:ALPNExtension", ["Protocols []string"])
+  | .reneg => ("handshake_extensions.go:SecureRenegotiationExtension", [])
+  | .ems => ("handshake_extensions.go:ExtendedMasterSecretExtension", [])
+  | .status => ("handshake_extensions.go:StatusRequestExtension", [])
+  | .sct => ("handshake_extensions.go:SCTExtension", [])
+  | .curves _ => ("handshake_extensions.go:SupportedCurvesExtension", ["Curves []CurveID"])
+  | .points _ => ("handshake_extensions.go:PointFormatExtension", ["Formats []uint8"])
+  | .ticket _ => ("handshake_extensions.go:SessionTicketExtension", ["Ticket []byte", "Autopopulate bool"])
+  | .sigalgs _ => ("handshake_extensions.go:SignatureAlgorithmExtension", ["SignatureAndHashes []uint16"])
+
+/-- one representative per constructor of `Ext`, in source order of the Go types -/
+def extKinds : List Ext :=
+  [.null, .sni [], .alpn [], .reneg, .ems, .status, .sct, .curves [], .points [], .ticket [], .sigalgs []]
+
+def builtinTypes : List (String × List String) := extKinds.map goType
+
+/-- `(*ClientFingerprintConfiguration).CheckImplementedExtensions() == nil`: the first failing extension
+    returns its error, i.e. all must pass -/
+def checkExts (l : List Ext) : Bool := l.all checkExt
+
+/-! ## `WriteToConfig`: what the fingerprint writes into the `Config` (`c29 wtc`)
+
+  Model of `(*ClientFingerprintConfiguration).WriteToConfig` together with the `WriteToConfig` methods of all
+  built-in extension types: the resets in front of the loop and the per-type effect. `SignatureAndHashes`
+  is NOT reset (only overwritten by a SignatureAlgorithmExtension), so its previous value is an input. -/
+structure WCfg where
+  serverName : Bytes                     -- Config.ServerName
+  nextProtos : List Bytes                -- Config.NextProtos
+  cipherSuites : List UInt16             -- Config.CipherSuites
+  maxVersion : UInt16                    -- Config.MaxVersion
+  clientRandom : Bytes                   -- Config.ClientRandom
+  curvePrefs : List UInt16               -- Config.CurvePreferences
+  heartbeat : Bool                       -- Config.HeartbeatEnabled
+  extendedRandom : Bool                  -- Config.ExtendedRandom
+  forceTicket : Bool                     -- Config.ForceSessionTicketExt
+  ems : Bool                             -- Config.ExtendedMasterSecret
+  sct : Bool                             -- Config.SignedCertificateTimestampExt
+  sigHashes : List (UInt8 × UInt8)       -- Config.SignatureAndHashes as (Hash, Signature)
+  deriving DecidableEq, Repr
+
+/-- the assignments in front of the loop -/
+def wtcInit (cfg : Cfg) (serverName : Bytes) (sigHashes0 : List (UInt8 × UInt8)) : WCfg :=
+  { serverName := serverName, nextProtos := [], cipherSuites := cfg.suites, maxVersion := cfg.vers,
+    clientRandom := cfg.random, curvePrefs := [], heartbeat := false, extendedRandom := false,
+    forceTicket := false, ems := false, sct := false, sigHashes := sigHashes0 }
+
+/-- `getStructuredAlgorithms`: `Hash = uint8(alg >> 8)`, `Signature = uint8(alg)` -/
+def structured (l : List UInt16) : List (UInt8 × UInt8) :=
+  l.map (fun a => (UInt8.ofNat (a.toNat / 256), UInt8.ofNat a.toNat))
+
+/-- the effect of `ext.WriteToConfig(config)` on the `Config` fields (the rewrite of the extension list by an
+    `Autopopulate` SNI is `replaceSni`, in the loop) -/
+def wtcExt (e : Ext) (c : WCfg) : WCfg :=
+  match e with
+  | .sni domains =>
+    -- `if c.ServerName == "" && len(e.Domains) > 0 { c.ServerName = e.Domains[0] }`
+    { c with serverName := if c.serverName.isEmpty then (match domains with | d :: _ => d | [] => c.serverName)
+                           else c.serverName }
+  | .alpn ps => { c with nextProtos := ps }
+  | .ems => { c with ems := true }
+  | .sct => { c with sct := true }
+  | .curves l => { c with curvePrefs := l }
+  | .ticket _ => { c with forceTicket := true }
+  | .sigalgs l => { c with sigHashes := structured l }
+  | .null => c
+  | .reneg => c
+  | .status => c
+  | .points _ => c
+
+/-- the loop of `WriteToConfig` with the whole `Config` as state (cf. `wtcLoop`, which keeps `ServerName` only) -/
+def wtcFullLoop : Nat → Nat → List WExt → WCfg → List WExt × WCfg
+  | 0, _, exts, c => (exts, c)
+  | fuel + 1, i, exts, c =>
+    match exts[i]? with
+    | none => (exts, c)
+    | some w =>
+      let exts' := match w.e with
+        | .sni _ => if w.auto then replaceSni exts c.serverName else exts
+        | _ => exts
+      wtcFullLoop fuel (i + 1) exts' (wtcExt w.e c)
+
+/-- `(*ClientFingerprintConfiguration).WriteToConfig(config)`: extension list afterwards and the `Config` -/
+def writeToConfig (cfg : Cfg) (wexts : List WExt) (serverName : Bytes) (sigHashes0 : List (UInt8 × UInt8)) :
+    List WExt × WCfg :=
+  wtcFullLoop wexts.length 0 wexts (wtcInit cfg serverName sigHashes0)
+
+/-- `c29 rt`: `marshal` followed by `(*clientHelloMsg).unmarshal` of the produced bytes -/
+inductive RtRes where
+  | errMarshal
+  | errParse
+  | ok (m : ClientHello)
+
+def roundTrip (cfg : Cfg) (force : Bool) (rand : Bytes) (time : Nat) : RtRes :=
+  match marshal cfg force rand time with
+  | none => .errMarshal
+  | some b =>
+    match parseClientHello b with
+    | none => .errParse
+    | some m => .ok m
 
 end ZV.C29
